@@ -108,6 +108,25 @@ class Scratch:
         self.write(rel, new)
         self.scalings.append(what)
 
+    SHIMS = ("ahash", "elsa", "indexmap", "futures", "event-listener", "bitvec", "tracing")
+
+    def use_shims(self, which=SHIMS):
+        """DESIGN 8.1: replaces library dependencies of the scratch copy by the association-list / minimal shims under
+        /verif/shims and applies the two declared source substitutions that go with the ahash shim."""
+        toml = self.read("Cargo.toml")
+        for name in which:
+            toml, n = re.subn(r"(?m)^%s = .*$" % re.escape(name), '%s = { path = "%s/shims/%s" }' % (name, VERIF, name), toml, count=1)
+            if n != 1:
+                raise Inconclusive("shim %s: dependency line not found in Cargo.toml" % name)
+            self.scalings.append("dependency %s replaced by /verif/shims/%s (scratch copy only)" % (name, name))
+        self.write("Cargo.toml", toml)
+        if "ahash" in which:
+            self.scale("src/internal/frozen_copy_map.rs", r"use std::collections::HashMap;", "use ahash::StdHashMap as HashMap;",
+                       "frozen_copy_map.rs: std::collections::HashMap -> ahash shim (scratch copy only)")
+            self.scale("src/solver/variable_map.rs", r"use std::\{collections::hash_map::Entry, fmt::Display\};",
+                       "use std::fmt::Display;\nuse ahash::hash_map::Entry;",
+                       "variable_map.rs: std hash_map::Entry -> ahash shim Entry (scratch copy only)")
+
     def add_harness_file(self, src_abs_or_text, name=None, is_text=False):
         """Copies a harness source into the scratch copy (so playback tests can be appended)."""
         if is_text:
